@@ -306,6 +306,11 @@ mmg = re.search(r"#define MIN_GET_BITS\s+\(BIT_BUF_SIZE - (\d+)\)", fb)
 if not mmg:
     die("jdhuff.c: MIN_GET_BITS not found")
 min_get_bits = int(mbb.group(1)) - int(mmg.group(1))
+bit_buf_size = int(mbb.group(1))
+jhc = re.sub(r"\\\n", " ", jh)
+need(r"#define GET_BITS\(nbits\)\s+\(\(\(int\)\(get_buffer >> \(bits_left -= \(nbits\)\)\)\) & \(\(1 << \(nbits\)\) - 1\)\)", jhc, "jdhuff.h GET_BITS")
+need(r"#define PEEK_BITS\(nbits\)\s+\(\(\(int\)\(get_buffer >> \(bits_left -\s+\(nbits\)\)\)\) & \(\(1 << \(nbits\)\) - 1\)\)", jhc, "jdhuff.h PEEK_BITS")
+need(r"#define DROP_BITS\(nbits\)\s+\(bits_left -= \(nbits\)\)", jhc, "jdhuff.h DROP_BITS")
 need(r"while \(bits_left < MIN_GET_BITS\) \{", fb, "jdhuff.c jpeg_fill_bit_buffer: fill loop")
 need(r"if \(cinfo->unread_marker == 0\) \{", fb, "jdhuff.c jpeg_fill_bit_buffer: marker test")
 need(r"if \(nbits > bits_left\) \{.*?WARNMS\(cinfo, JWRN_HIT_MARKER\);.*?insufficient_data = TRUE;.*?get_buffer <<= MIN_GET_BITS - bits_left;\s*bits_left = MIN_GET_BITS;",
@@ -432,7 +437,9 @@ print("   stuffed value, flush code, flush size, RST0, restart-number mask *)")
 print("(* jdhuff.h / jdhuff.c: MIN_GET_BITS of the 64-bit build; the shapes of jpeg_fill_bit_buffer, of the row loop of")
 print("   jddiffct.c decompress_data (restart test, MCU_vert_offset save, restart_pending) and of process_restart /")
 print("   read_restart_marker were found as the model (model/LosslessLazy.v) states them *)")
-print("Definition gen_min_get_bits : Z := %d.\n" % min_get_bits)
+print("Definition gen_min_get_bits : Z := %d." % min_get_bits)
+print("(* jdhuff.h: BIT_BUF_SIZE of the 64-bit build; GET_BITS / PEEK_BITS / DROP_BITS have the texts model/LosslessBitReg.v transcribes *)")
+print("Definition gen_bit_buf_size : Z := %d.\n" % bit_buf_size)
 print("Definition gen_byte_consts : list Z := [%s].\n" % "; ".join(str(x) for x in byte_consts))
 print("(* per TurboJPEG pixel format 0..11: turbojpeg.h (red, green, blue, alpha, pixel size) and, through turbojpeg.c pf2cs,")
 print("   jmorecfg.h (rgb_red, rgb_green, rgb_blue, rgb_pixelsize) of the colour space given to the converters *)")
